@@ -895,6 +895,42 @@ impl HashMon {
         }
     }
 
+    /// `a == b` (the library's own equality) must imply equal std hashes - also for the siblings of a
+    /// position that differ from it in a single component, whatever the library's equality says about them
+    fn eq_hash_law(&mut self, n: &Node, rep: &mut Report) {
+        let b = n.b;
+        let orig: BoardBuilder = b.into();
+        let mut sibs: Vec<Board> = vec![];
+        if b.en_passant().is_some() {
+            let mut bb = orig;
+            bb.en_passant(None);
+            if let Ok(t) = Board::try_from(&bb) {
+                sibs.push(t);
+            }
+        }
+        if let Some(n1) = b.null_move() {
+            if let Some(n2) = n1.null_move() {
+                sibs.push(n2);
+            }
+            sibs.push(n1);
+        }
+        for c in [Color::White, Color::Black].iter() {
+            if orig.get_castle_rights(*c) != chess::CastleRights::NoRights {
+                let mut bb = orig;
+                bb.castle_rights(*c, chess::CastleRights::NoRights);
+                if let Ok(t) = Board::try_from(&bb) {
+                    sibs.push(t);
+                }
+            }
+        }
+        for t in sibs {
+            rep.count("ev_eq_hash_law_pairs");
+            if t == *b && std_hash(&t) != std_hash(b) {
+                rep.violation("C08/std-hash-inconsistent-with-eq", format!("{} == {} but their std hashes differ", b, t));
+            }
+        }
+    }
+
     fn transpositions(&mut self, n: &Node, rep: &mut Report, rng: &mut Rng) {
         // commuting move pairs in both orders, out-and-back, null-move detours
         let b = n.b;
@@ -1169,6 +1205,9 @@ impl NodeMon for HashMon {
         }
         if self.prop8 {
             self.twins(n, rep);
+            if n.b.en_passant().is_some() || rng.chance(1, 8) {
+                self.eq_hash_law(n, rep);
+            }
             let every = if self.variant == Variant::Miri { 8 } else { 4 };
             if rng.chance(1, every) {
                 self.transpositions(n, rep, rng);
